@@ -170,7 +170,29 @@ func (g *gen) esdsPayload() []byte {
 		es.u16(g.rng("esds:ocresid", 1, 3))
 	}
 	es.raw(g.descriptor("esds:dcd", 4, dcd.b))
+	// optional further descriptors of the ES_Descriptor (14496-1 7.2.6.5: IPI pointer 0x09, language 0x43,
+	// registration 0x0d, extension 0x80..): normally after the SLConfigDescriptor, occasionally in front of it
+	others := func(label string) {
+		for i, n := 0, g.rng(label+":n", 1, 2); i < n; i++ {
+			switch g.pickInt(label+":tag", 0x43, 0x43, 0x09, 0x0d, 0x80) {
+			case 0x43:
+				es.raw(g.descriptor(label, 0x43, []byte(g.pick(label+":lang", "eng", "swe", "und"))))
+			case 0x09:
+				es.raw(g.descriptor(label, 0x09, []byte{0, byte(g.rng(label+":ipi", 1, 9))}))
+			case 0x0d:
+				es.raw(g.descriptor(label, 0x0d, append([]byte("vrfy"), g.bytes(label+":reg", 0, 4)...)))
+			default:
+				es.raw(g.descriptor(label, 0x80, g.bytes(label+":ext", 0, 6)))
+			}
+		}
+	}
+	if g.pct("esds:others-before-sl", 10) {
+		others("esds:pre")
+	}
 	es.raw(g.descriptor("esds:sl", 6, []byte{2})) // predefined = 2: reserved for use in MP4 files
+	if g.pct("esds:others-after-sl", 15) {
+		others("esds:post")
+	}
 	return full(0, 0).raw(g.descriptor("esds:es", 3, es.b)).b
 }
 
